@@ -67,7 +67,6 @@ MUTANTS += [
 
     with np.errstate(invalid="ignore"):
         flag_arr[roc > threshold]""", ["C10"]),
-    ("roc_no_abs", Q, "    roc[1:] = np.abs(\n        np.diff(inp) /", "    roc[1:] = (\n        np.diff(inp) /", ["C10", "C17"]),
     ("roc_shapecheck_removed", Q, "    if inp.size != tinp.size:\n", "    if False:\n", ["C10"]),
     ("speed_latlon_swapped", UT, "return Geodesic.WGS84.Inverse(y1, x1, y2, x2)[\"s12\"]", "return Geodesic.WGS84.Inverse(x1, y1, x2, y2)[\"s12\"]", ["C10", "C14"]),
     ("speed_fail_ge", R, "flag_arr[speed > fail_threshold] = QartodFlags.FAIL", "flag_arr[speed >= fail_threshold] = QartodFlags.FAIL", ["C10"]),
@@ -87,7 +86,7 @@ MUTANTS += [
     ("speed_shape_tinp_unchecked", R, "if lon.shape != lat.shape or lon.shape != tinp.shape:", "if lon.shape != lat.shape:", ["C10"]),
 ]
 MUTANTS += [
-    ("flat_count_plus1", Q, "count = (int(test_threshold) / time_interval).astype(int)", "count = (int(test_threshold) / time_interval).astype(int) + 1", ["C11"]),
+    ("flat_count_plus1", Q, "count = (int(test_threshold) / time_interval).astype(int)", "count = (int(test_threshold) / time_interval).astype(int) + 1", ["C11", "C17"]),
     ("flat_nfill_off_by_one", Q, "n_fill = min(len(inp), count)", "n_fill = min(len(inp), max(count - 1, 0))", ["C11"]),
     ("flat_range_le", Q, "np.ma.filled(data_range < tolerance, fill_value=False)", "np.ma.filled(data_range <= tolerance, fill_value=False)", ["C11"]),
     ("flat_order_swapped", Q, "    run_test(suspect_threshold, QartodFlags.SUSPECT)\n    run_test(fail_threshold, QartodFlags.FAIL)", "    run_test(fail_threshold, QartodFlags.FAIL)\n    run_test(suspect_threshold, QartodFlags.SUSPECT)", ["C11", "C16"]),
@@ -97,7 +96,7 @@ MUTANTS += [
     ("flat_short_missing_regress", Q, "        flag_arr[inp.mask] = QartodFlags.MISSING\n        return flag_arr.reshape(original_shape)\n", "        return flag_arr.reshape(original_shape)\n", ["C11", "C02"]),
 ]
 MUTANTS += [
-    ("att_closed_both", Q, 'windows = series.rolling(f"{test_period}s", min_periods=min_periods)', 'windows = series.rolling(f"{test_period}s", min_periods=min_periods, closed="both")', ["C12"]),
+    ("att_closed_both", Q, 'windows = series.rolling(f"{test_period}s", min_periods=min_periods)', 'windows = series.rolling(f"{test_period}s", min_periods=min_periods, closed="both")', ["C12", "C17"]),
     ("att_min_period_inverted", Q, "min_periods = (min_period / time_interval).astype(int)", "min_periods = (time_interval / min_period).astype(int)", ["C12"]),
     ("att_fail_le", Q, "flag_arr[check_val < fail_threshold] = QartodFlags.FAIL", "flag_arr[check_val <= fail_threshold] = QartodFlags.FAIL", ["C12"]),
     ("att_suspect_le", Q, "flag_arr[check_val < suspect_threshold] = QartodFlags.SUSPECT", "flag_arr[check_val <= suspect_threshold] = QartodFlags.SUSPECT", ["C12"]),
@@ -109,7 +108,7 @@ MUTANTS += [
     flag_arr[check_val >= suspect_threshold] = QartodFlags.GOOD
     flag_arr[check_val < suspect_threshold] = QartodFlags.SUSPECT
     flag_arr[np.isnan(check_val)] = QartodFlags.UNKNOWN
-""", ["C12", "C16"]),
+""", ["C12"]),
     ("att_window_std_population", Q, "window_func = lambda x: x.std()  # noqa", "window_func = lambda x: x.std(ddof=0)  # noqa", ["C12"]),
     ("att_nowindow_std_sample", Q, "        check_func = np.std\n", "        check_func = lambda a: np.std(a, ddof=1)\n", ["C12"]),
     ("att_min_obs_ignored", Q, "            min_periods = min_obs\n", "            min_periods = None\n", ["C12"]),
@@ -166,4 +165,58 @@ MUTANTS += [
     ("c02_density_missing_overflags", Q, "    flag_arr[1:][is_missing[:-1]] = QartodFlags.MISSING", "    flag_arr[1:][is_missing[:-1]] = QartodFlags.MISSING\n    flag_arr[:-1][is_missing[1:]] = QartodFlags.MISSING", ["C02", "C13"]),
     ("c02_mask_dropped_regress_flat", Q, "        inp = np.ma.masked_invalid(np.ma.array(inp).astype(np.float64).filled(np.nan))\n\n    # Save original shape\n    original_shape = inp.shape\n    inp = inp.flatten()\n\n    # Start with everything as passing\n", "        inp = np.ma.masked_invalid(np.array(inp).astype(np.float64))\n\n    # Save original shape\n    original_shape = inp.shape\n    inp = inp.flatten()\n\n    # Start with everything as passing\n", ["C02", "C15"]),
     ("c02_clim_missing_depth_matches", Q, "                & np.ma.filled(z_idx, fill_value=False).astype(bool)", "                & np.ma.filled(z_idx, fill_value=True).astype(bool)", ["C08"]),
+]
+
+MUTANTS += [
+    ("c16_gross_suspect_after_fail", Q, """    # Flag suspect outside of sensor span
+    with np.errstate(invalid="ignore"):
+        flag_arr[(inp < sspan.minv) | (inp > sspan.maxv)] = QartodFlags.FAIL
+
+    return flag_arr.reshape(original_shape)""", """    # Flag suspect outside of sensor span
+    with np.errstate(invalid="ignore"):
+        flag_arr[(inp < sspan.minv) | (inp > sspan.maxv)] = QartodFlags.FAIL
+        if suspect_span is not None:
+            flag_arr[(inp < uspan.minv) | (inp > uspan.maxv)] = QartodFlags.SUSPECT
+
+    return flag_arr.reshape(original_shape)""", ["C16", "C03"]),
+    ("c16_density_suspect_after_fail", Q, """    if suspect_threshold is not None:
+        with np.errstate(invalid="ignore"):
+            is_suspect = delta < suspect_threshold
+            if any(is_suspect):
+                flag_arr[:-1][is_suspect == True] = QartodFlags.SUSPECT  # noqa:E712- Previous value
+                flag_arr[1:][is_suspect == True] = QartodFlags.SUSPECT  # noqa:E712- Reversed value
+
+    if fail_threshold is not None:
+        with np.errstate(invalid="ignore"):
+            is_fail = delta < fail_threshold
+            if any(is_fail):
+                flag_arr[:-1][is_fail == True] = QartodFlags.FAIL  # noqa:E712- Previous value
+                flag_arr[1:][is_fail == True] = QartodFlags.FAIL  # noqa:E712- Reversed Value
+""", """    if fail_threshold is not None:
+        with np.errstate(invalid="ignore"):
+            is_fail = delta < fail_threshold
+            if any(is_fail):
+                flag_arr[:-1][is_fail == True] = QartodFlags.FAIL  # noqa:E712- Previous value
+                flag_arr[1:][is_fail == True] = QartodFlags.FAIL  # noqa:E712- Reversed Value
+
+    if suspect_threshold is not None:
+        with np.errstate(invalid="ignore"):
+            is_suspect = delta < suspect_threshold
+            if any(is_suspect):
+                flag_arr[:-1][is_suspect == True] = QartodFlags.SUSPECT  # noqa:E712- Previous value
+                flag_arr[1:][is_suspect == True] = QartodFlags.SUSPECT  # noqa:E712- Reversed value
+""", ["C16", "C13"]),
+    ("c16_clim_suspect_overrides_fail", Q, """                flag_arr[(values_idx & fail_idx)] = QartodFlags.FAIL
+                flag_arr[(values_idx & ~fail_idx & suspect_idx)] = QartodFlags.SUSPECT""", """                flag_arr[(values_idx & fail_idx)] = QartodFlags.FAIL
+                flag_arr[(values_idx & suspect_idx)] = QartodFlags.SUSPECT""", ["C16", "C08"]),
+]
+
+MUTANTS += [
+    ("c17_roc_no_abs", Q, "    roc[1:] = np.abs(\n        np.diff(inp) /", "    roc[1:] = np.ma.array(\n        np.diff(inp) /", ["C17", "C10"]),
+    ("c17_spike_abs_inside", Q, "        diff = np.abs(inp - ref)\n", "        diff = np.abs(np.abs(inp) - np.abs(ref))\n", ["C17", "C09"]),
+    ("c17_mapdates_minute_truncation", UT, "        # numpy datetime objects\n        return dates.astype(\"datetime64[ns]\")", "        # numpy datetime objects\n        return dates.astype(\"datetime64[m]\").astype(\"datetime64[ns]\")", ["C17", "C10"]),
+    ("c17_gross_sort_by_abs", Q, "    sspan = span(*sorted(fail_span))\n\n    with warnings.catch_warnings():\n        warnings.simplefilter(\"ignore\")\n        inp = np.ma.masked_invalid(np.ma.array(inp)", "    sspan = span(*sorted(fail_span, key=abs))\n\n    with warnings.catch_warnings():\n        warnings.simplefilter(\"ignore\")\n        inp = np.ma.masked_invalid(np.ma.array(inp)", ["C17", "C03"]),
+    ("c17_density_global_direction", Q, "delta = np.sign(np.diff(zinp)) * np.diff(inp)", "delta = np.sign(zinp[-1] - zinp[0]) * np.diff(inp)", ["C17", "C13"]),
+    ("c17_flat_tolerance_relative", Q, "test_results = np.ma.filled(data_range < tolerance, fill_value=False)", "test_results = np.ma.filled(data_range < tolerance * (1 + 0 * np.abs(data_max)) + (np.abs(data_max) > 500) * 1.0, fill_value=False)", ["C17"]),
+    ("c17_speed_epoch_anchor", R, "        dist[1:] / np.diff(tinp).astype(\"timedelta64[s]\").astype(float),", "        dist[1:] / np.diff(tinp.astype(\"datetime64[s]\").astype(\"int64\").astype(\"float32\")).astype(float),", ["C17"]),
 ]
